@@ -6,7 +6,12 @@ CONSTANTS
   NFlag = 256
   JRep = {0, 1, 2, 3, 255}
   MaxFaults = 3
+  TailBases = {}
+  TailPos = 0
+  TailComp = {}
+  ShortKinds = {}
+  ShortLen = 0
 INIT Init
 NEXT Next
 CONSTRAINT Budget
-INVARIANTS TypeOK RoundTrip AcceptNonZero Pad64 DebugIsSampled MissingNotSampled SinglePrecedence NothingFromNothing ZeroNeverInstalled Agree
+INVARIANTS TypeOK RoundTrip AcceptNonZero Pad64 DebugIsSampled MissingNotSampled SinglePrecedence NothingFromNothing ZeroNeverInstalled Agree TailTypeOK
